@@ -103,6 +103,14 @@ class Repo:
         self.new_functions = []
         self.unrolled = {}
         self.partially_evaluated = {}
+        from . import inliner as _inl
+        _inl.NONNULL_REPO_FUNCTIONS.clear()
+        _simple = {}
+        for q_, f_ in self.funcs.items():
+            _simple.setdefault(q_.rsplit(".", 1)[-1], []).append(f_)
+        for nm_, fs_ in _simple.items():
+            if len(fs_) == 1 and fs_[0].cls is None and _inl.never_returns_none(fs_[0].node):
+                _inl.NONNULL_REPO_FUNCTIONS.add(nm_)
         self._inline_new_helpers()
         if not os.environ.get("VERIF_NO_INLINE"):
             from .normalize import apply_synonyms
